@@ -56,7 +56,7 @@ def cli_runs(ctx, n, maxlen):
 def run(ctx):
     ctx.rule = ("B1: every string over {A,C,G,T/U,other} up to L as one record through OligoCgrComputer::vectorise() (raw and "
                 "normalised, small batch limit): frequencies compared by TLC with the OligoVec model, coordinates required to be "
-                "bit-identical in every row; B2: random records k=1..7, sizes {1,k^2,16,2^20}, threads 1..16: every column's (x,y) "
+                "bit-identical in every row; B2: random records k=1..8, sizes {1,k^2,16,2^20}, threads 1..16: every column's (x,y) "
                 "numerator = chaos-game end point of that column's k-mer text (ocols), every row's frequencies = declarative "
                 "Count (orec); CLI incl. default -v = k^2. non-trivial = records with at least one valid window")
     ctx.trusted += ["triple text -> numerators / 6-decimal digits decoding (facts.rs)", "TLC, Json/IOUtils community modules"]
@@ -65,7 +65,7 @@ def run(ctx):
             return
     t = ctx.path("ocgr_lib.ndjson")
     vlib.kvh(["trace", "ocgr", ctx.seed, 24 if ctx.thorough() else 6, 500 if ctx.thorough() else 250, ctx.rundir], out=t)
-    fc.validate(ctx, t, "library file API k=1..7", "orec")
+    fc.validate(ctx, t, "library file API k=1..8", "orec")
     fc.sample_events(ctx, t, 2, "ocgr lib")
     c = cli_runs(ctx, 12 if ctx.thorough() else 4, 300)
     fc.validate(ctx, c, "CLI comp cgr -k", "orec")
